@@ -361,6 +361,14 @@ def lstsqNormal [BEq K] (modes : List (List K)) (data : List K) (mask : List Boo
   let rows := cols.map fun ci => cols.map (fun cj => dot ci cj) ++ [dot ci d]
   gjSolve cols.length rows
 
+/-- left-hand sides `Σ_i M_k[i] (Σ_j w_j M_j[i] - d[i])` of the normal equations on the kept samples: all zero iff `w` solves them -/
+def normalResidual (modes : List (List K)) (data : List K) (mask : List Bool) (w : List K) : List K :=
+  let cols := modes.map (maskSel mask)
+  let d := maskSel mask data
+  let fit := (List.range d.length).map fun i => wsum (fun k => nth w k) 0 (cols.map fun c => nth c i)
+  let res := (fit.zip d).map fun (a, b) => a - b
+  cols.map fun c => dot c res
+
 /-! ## token reader shared by the C09 / C10 drivers -/
 namespace Rd
 
